@@ -7,6 +7,15 @@ HOOK_COMMITS = subprocess.run(["git", "-C", "/repo", "log", "--format=%H", "--",
                               stdout=subprocess.PIPE, text=True).stdout.split()
 
 CLAIMED = {
+ "C02": dict(cat="proof", tech="Coq proof (involution for power-of-two sizes, Remove/Lookup agreement) + refutation witnesses by vm_compute on the concrete murmur3 model + extracted-model correspondence",
+   text="The full no-false-negative statement is refuted on the faithful model for non-power-of-two bucket counts and for empty fingerprints (witness theorems, replayed on the code as known findings); the eviction-loop defect was repaired. Proved so far: alternate-bucket involution for 2^j sizes, Remove succeeds iff Lookup is true and otherwise changes nothing. Every Insert/Remove/Lookup outcome and the murmur3 model are diffed against the code on histories that saturate small filters with mirrored random draws; a live-multiset monitor searches for lost elements.",
+   note="Trusted as C01, plus math/rand mirrored through rand.Seed. The class-counting proof of the full statement for power-of-two sizes is not yet done (partial).", ref="6 C02"),
+ "C13": dict(cat="proof", tech="Coq proof (length bookkeeping over the whole insert incl. eviction loop, by induction on retries) + extracted-model correspondence",
+   text="Proved for every hash/configuration/state/random choice: Length moves by +1 exactly on a returning Insert and not at all on any failed one; Remove returns true iff Lookup does and a failed Remove changes nothing. Empty-fingerprint elements refute the stored-entries accounting (witness, known finding). Full slot/counter state is diffed against the code after every step; monitors check Length = inserts - removes = stored entries = sum of counters, capacity, exactly-one removal, drain.",
+   note="Trusted as C02. The slot-count invariant (counter = non-empty slots) is so far checked by monitors and correspondence, not yet by a theorem (partial).", ref="6 C13"),
+ "C14": dict(cat="proof", tech="Coq proof (exhaustion is signalled; failed inserts keep Length) + extracted-model correspondence with before/after state snapshots",
+   text="Proved: exhausting the retries never reports success; Length is unchanged by every failed insert. The undo-log theorem (non-destructive failure restores the exact state) is checked by full-state correspondence and a before/after monitor, not yet proved (partial). The destructive-displacement defect was repaired (fix: commit).",
+   note="Trusted as C02.", ref="6 C14"),
  "C01": dict(cat="proof", tech="Coq proof (monotone bit-set invariant over arbitrary histories) + extracted-model correspondence",
    text="Theorem for every filter state, every probe-position function (hence every hash, size, numHashes) and every history: after Insert x every later Lookup x is true; fresh filters report everything absent; constructors clamp size/k to >=1. Tied to the code by differential runs of the extracted model (positions from the code's own getIndex) and a false-negative monitor.",
    note="Trusted: Coq kernel, extraction + OCaml driver, Go harness/generators, bits-and-blooms/bitset semantics as modelled (Set extends, Test beyond length is false), miniredis for the Redis variant.", ref="6 C01"),
